@@ -69,7 +69,7 @@ func (c *Config) defaults() {
 		c.Workers = 1
 	}
 	if c.MaxViolation == 0 {
-		c.MaxViolation = 3
+		c.MaxViolation = 40
 	}
 	if c.SampleEvery == 0 {
 		c.SampleEvery = 1
